@@ -11,7 +11,7 @@ import (
 func init() {
 	register("C16", &ruleSet{
 		run:    runC16,
-		floors: map[string]int{"O1": 6, "O2": 5, "O3": 7, "O4": 3},
+		floors: map[string]int{"O1": 6, "O2": 5, "O3": 7, "O4": 3, "O5": 1},
 		explain: "Decides from SSA paths that (O1) every post-construction store of a limit type's estimate is followed on every path to return by " +
 			"the type's notification routine, given the just-stored value (or a re-load of the field after the last store) through the same conversion " +
 			"EstimatedLimit applies; (O2) the notification routine calls every registered listener with that value (no skip, break or early return); " +
@@ -144,6 +144,8 @@ func c16InlineHeader(p *Prog, n *notifier, b *ssa.BasicBlock) *ssa.Call {
 }
 
 func runC16(p *Prog, l *Ledger) {
+	l.Rule("O5", "a limit's listeners are its own (decided by the C17/O6 rule on the same tree): the listener collection is not initialised from a package-level slice whose spare capacity every instance would append into")
+	importObligations(p, l, "C17", "O5", func(o *Obligation) bool { return o.Rule == "O6" })
 	l.Rule("O1", "every post-construction store of the estimate is followed on every path to return by the notification routine carrying the stored value through EstimatedLimit's conversion")
 	l.Rule("O2", "the notification routine calls every element of the listener collection with its parameter: no skipped iteration, no break, no early return")
 	l.Rule("O3", "NotifyOnChange appends its parameter to the listener collection under the exclusive mutex, or forwards it unchanged to the delegate's NotifyOnChange (wrappers)")
